@@ -5492,3 +5492,71 @@ func ruleLoaderReturnsRules(id string) func(*Checker) {
 		}
 	}
 }
+
+// ruleSourceAsGivenOnlyFollowed — the source path as the caller spelled it is only looked at and followed.
+func ruleSourceAsGivenOnlyFollowed(id string) func(*Checker) {
+	return func(c *Checker) {
+		c.rule(id, "In Pack the source path parameter itself — the spelling the caller used, which may be a link to the directory — goes only into os.Lstat, filepath.Clean and the loop that follows links; everything else (the ignore-rule loader, filepath.Abs, the allow list, the walk) is given the value that comes out of that loop. What is computed from the caller's spelling depends on it: a relative allow-list entry resolved against the link's directory instead of the directory's makes Pack(link) refuse, or silently copy, what Pack(dir) stores as a link.", 1)
+		pc := getPackCtx(c, id)
+		if pc == nil {
+			return
+		}
+		p := c.P
+		pack := pc.Pack
+		var src *ssa.Parameter
+		for _, prm := range pack.Params {
+			if isStringType(prm.Type()) {
+				src = prm
+				break
+			}
+		}
+		if src == nil || src.Referrers() == nil {
+			c.anchorMissing(id, "the source path parameter of Pack")
+			return
+		}
+		bad := ""
+		var visit func(v ssa.Value, seen map[ssa.Value]bool)
+		visit = func(v ssa.Value, seen map[ssa.Value]bool) {
+			if seen[v] || v.Referrers() == nil {
+				return
+			}
+			seen[v] = true
+			for _, r := range *v.Referrers() {
+				switch x := r.(type) {
+				case *ssa.Phi:
+					// the loop variable: from here on it is the followed value
+				case *ssa.Store:
+					if al, ok := x.Addr.(*ssa.Alloc); ok && x.Val == v {
+						// a spilled copy of the parameter: its loads are the parameter
+						if al.Referrers() != nil {
+							for _, r2 := range *al.Referrers() {
+								if ld, ok := r2.(*ssa.UnOp); ok && ld.Op == token.MUL {
+									_ = ld // a cell shared with the loop: cannot tell the spellings apart; left to the other C16 rules
+								}
+							}
+						}
+					}
+				case ssa.CallInstruction:
+					o := calleeObj(x)
+					switch {
+					case isFunc(o, "os", "Lstat"), isFunc(o, "os", "Stat"):
+					case isFunc(o, "path/filepath", "Clean"):
+						if val, ok := r.(ssa.Value); ok {
+							visit(val, seen)
+						}
+					default:
+						if bad == "" {
+							bad = shortCallee(fullName(o)) + " at " + p.Pos(x.Pos())
+						}
+					}
+				case *ssa.BinOp, *ssa.MakeInterface:
+					// compared, or wrapped for an error message
+				default:
+					_ = x
+				}
+			}
+		}
+		visit(src, map[ssa.Value]bool{})
+		c.check(bad == "", id, p.FuncName(pack), "the source as given is only looked at and followed", p.Pos(pack.Pos()), "its only consumers are os.Lstat, filepath.Clean and the link-following loop", "the path as the caller spelled it is handed to "+bad+" before the link-following loop has replaced it by the directory it leads to")
+	}
+}
